@@ -6,6 +6,7 @@ Oracle: reference AES key expansion (vf.refs.aes_ref.expand) and reference DES P
 import numpy as np
 
 from .. import core
+from .. import gen as _gen
 from ..refs import aes_ref as A
 from ..refs import des_ref as D
 
@@ -69,8 +70,9 @@ def cases(tier, seed):
 
 
 def _ro(a):
-    a.setflags(write=False)
-    return a
+    v = np.asarray(a).view()          # read-only view keeping the memory layout
+    v.setflags(write=False)
+    return v
 
 
 def _aes_keys(nk, rng, n_random=3):
@@ -96,7 +98,8 @@ def run_case(case):
         flat = [sum(A.expand(k), []) for k in keys]            # 4*total bytes each
         dt = ['uint8', 'int32', 'uint16', 'int64'][int(rng.integers(4))]
         for col_in in case['col_ins']:
-            window = _ro(np.array([f[4 * col_in: 4 * (col_in + ncols)] for f in flat], dtype=dt))
+            window = _ro(_gen.layout_nd(rng, np.array([f[4 * col_in: 4 * (col_in + ncols)] for f in flat], dtype=dt)))
+            t.count('key_batch_layout:' + ('C' if window.flags.c_contiguous else 'non_C'))
             snap = window.tobytes()
             for col_out in range(0, total + 1):
                 got = scared.aes.key_expansion(window, col_in=col_in, col_out=col_out)
@@ -126,7 +129,7 @@ def run_case(case):
         nk = case['nk']
         keys = _aes_keys(nk, rng, 6)
         exp = np.array([A.expand(k) for k in keys], dtype='uint8')
-        got = scared.aes.key_schedule(_ro(np.array(keys, dtype='uint8')))
+        got = scared.aes.key_schedule(_ro(_gen.layout_nd(rng, np.array(keys, dtype='uint8'))))
         t.count('aes_schedules', len(keys))
         t.check(np.shape(got) == exp.shape and np.array_equal(got, exp), 'aes_key_schedule_batch', lambda: dict(nk=nk, got_shape=np.shape(got), exp_shape=exp.shape))
         for i in (0, 3, 4):
@@ -140,7 +143,7 @@ def run_case(case):
         keys = _aes_keys(16, rng, 4)
         sched = np.array([A.expand(k) for k in keys], dtype='uint8')
         for r in range(11):
-            got = scared.aes.inv_key_schedule(_ro(sched[:, r].copy()), round_in=r)
+            got = scared.aes.inv_key_schedule(_ro(_gen.layout_nd(rng, sched[:, r].copy())), round_in=r)
             t.count('aes_inv_schedules', len(keys))
             t.check(np.shape(got) == sched.shape and np.array_equal(got, sched), 'aes_inv_key_schedule', lambda: dict(round_in=r, key=keys[0]))
             got = scared.aes.inv_key_schedule(_ro(sched[1, r].copy()), round_in=r)
@@ -160,7 +163,7 @@ def run_case(case):
             keys.append(kk)
         exp = np.array([D.round_keys(k) for k in keys], dtype='uint8')
         dt = ['uint8', 'int16', 'int64'][int(rng.integers(3))]
-        arr = _ro(np.array(keys, dtype=dt))
+        arr = _ro(_gen.layout_nd(rng, np.array(keys, dtype=dt)))
         for r in range(16):
             got = scared.des.key_schedule(arr, interrupt_after_round=r)
             t.count('des_schedules', len(keys))
